@@ -224,6 +224,7 @@ static void run_case(const qdesc *q, qscn *s, long idx) {
     size_t dobj_el = s->dmax ? s->dmax : 1, sobj_el;
     if (s->dobj_full) dobj_el = s->dl + 1;               /* dmax below the string length: the whole terminated string is in the object */
     if (s->dobj_short) dobj_el = s->dl + (s->dterm ? 1 : 0);
+    if (s->viol == 4) dobj_el = s->dmax - 1;
     if (s->viol == 3) dobj_el = 4;                       /* dmax above the limit: operand of 4 elements, see below */
     uint8_t *dobj = s->dplace ? place_begin(0) : place_end(0, dobj_el * ew);
     memset(dobj - (s->dplace ? 0 : 32), CANARY, s->dplace ? 0 : 32);
@@ -291,7 +292,7 @@ static void run_case(const qdesc *q, qscn *s, long idx) {
     int notfound = (Q.ret == ESNOTFND || Q.ret == ESNODIFF);
     int answered = (q->rk == RK_BOOL || q->rk == RK_LEN) ? hc == 0 : (Q.ret == EOK || notfound);
     unsigned v = 0;
-    if (s->dnull) v |= 1; if (s->dmax == 0) v |= 2; if (s->viol == 3) v |= 4;
+    if (s->dnull) v |= 1; if (s->dmax == 0) v |= 2; if (s->viol == 3) v |= 4; if (s->viol == 4) v |= 2048;
     if ((q->fl & QF_SRC) && s->snull) v |= 8;
     if (!(q->fl & QF_NOOUT) && s->onull) v |= 16;
     if ((q->fl & QF_SLEN) && s->slen == 0 && !(!strcmp(q->name, "strstr_s") || !strcmp(q->name, "wcsstr_s"))) v |= 32;
@@ -486,12 +487,13 @@ static void gen(int qi) {
         }
     }
     /* pass C: constraint combinations */
-    for (int dnull = 0; dnull < 2; dnull++) for (int dm = 0; dm < 3; dm++) for (int snull = 0; snull < 2; snull++) for (int onull = 0; onull < 2; onull++)
+    for (int dnull = 0; dnull < 2; dnull++) for (int dm = 0; dm < 4; dm++) for (int snull = 0; snull < 2; snull++) for (int onull = 0; onull < 2; onull++)
     for (int sl = 0; sl < 3; sl++) for (int chv = 0; chv < 2; chv++) for (int bos = 0; bos < 2; bos++) {
         if (!(q->fl & QF_SRC) && snull) continue; if ((q->fl & QF_NOOUT) && onull) continue; if (!(q->fl & QF_SLEN) && sl) continue; if (!(q->fl & QF_CH) && chv) continue;
         memset(&s, 0, sizeof s); s.dl = 2; s.d[0] = 'a'; s.d[1] = 'b'; s.dterm = 1; s.sl = 1; s.s[0] = 'b'; s.sterm = 1;
         s.dnull = dnull; s.snull = snull; s.onull = onull; s.bos = bos;
-        s.dmax = dm == 0 ? 0 : 3; s.viol = dm == 2 ? 3 : 1; if (dm == 2 && dnull) continue;
+        s.dmax = dm == 0 ? 0 : 3; s.viol = dm == 2 ? 3 : dm == 3 ? 4 : 1; if (dm == 2 && dnull) continue;
+        if (dm == 3) { if (!bos || dnull || q->rk == RK_LEN) continue; }   /* dmax one element above the known size of dest ("dmax shall not be greater than the size of dest") */
         s.slen = (q->fl & QF_SLEN) ? (sl == 0 ? 2 : sl == 1 ? 0 : q->limit + 1) : 0;
         if (sl == 2 && bos && (q->fl & QF_SRCBOS)) continue;
         s.ch = chv ? 256 + 'a' : 'a'; s.count = 2;
